@@ -12,6 +12,7 @@ import (
 	"strings"
 	"testing"
 
+	"github.com/brutella/hc/db"
 	"pgregory.net/rapid"
 	"verifharness/fixture"
 	"verifharness/refctl"
@@ -35,9 +36,10 @@ type msg struct {
 func (m msg) String() string { return fmt.Sprintf("c%d:%s(%d)", m.Conn, m.Kind, m.Arg) }
 
 var startKinds = []string{"start", "start", "start", "start-method1", "start-method-unknown", "start-with-flags"}
-var verifyKinds = []string{"verify-right", "verify-right", "verify-right", "verify-wrong-code", "verify-random-proof", "verify-A-zero", "verify-A-N", "verify-A-2N", "verify-A-empty", "verify-A-absent", "verify-no-proof"}
-var exchangeKinds = []string{"exchange-genuine", "exchange-genuine", "exchange-second-identity", "exchange-second-identity", "exchange-zero-key", "exchange-zero-key", "exchange-guessable", "exchange-random-key", "exchange-tampered", "exchange-short", "exchange-absent", "exchange-replayed", "exchange-bad-signature", "exchange-name-mismatch"}
-var otherKinds = []string{"unknown-step", "empty-body", "garbage"}
+var verifyKinds = []string{"verify-right", "verify-right", "verify-right", "verify-wrong-code", "verify-random-proof", "verify-A-zero", "verify-A-N", "verify-A-2N", "verify-A-empty", "verify-A-absent", "verify-no-proof",
+	"verify-A-zero-public-proof", "verify-A-N-public-proof", "verify-A-empty-public-proof", "verify-replayed"}
+var exchangeKinds = []string{"exchange-genuine", "exchange-genuine", "exchange-second-identity", "exchange-second-identity", "exchange-empty-secret", "exchange-empty-secret", "exchange-zero-key", "exchange-zero-key", "exchange-guessable", "exchange-random-key", "exchange-tampered", "exchange-short", "exchange-absent", "exchange-replayed", "exchange-bad-signature", "exchange-name-mismatch"}
+var otherKinds = []string{"unknown-step", "empty-body", "garbage", "db-delete-controller"}
 
 // per-connection harness state
 type connState struct {
@@ -57,6 +59,8 @@ type world struct {
 	ctrl2    *refctl.Controller // a second identity the same peer may present
 	conns    []*connState
 	recorded [][]byte // genuine M5 bodies seen so far (for replay)
+	recM3    [][]byte // M3 bodies of accepted verify-right messages (an eavesdropper sees them in plaintext)
+	recM3On  []int    // the connection each of them was sent on
 	entropy  []byte
 }
 
@@ -99,6 +103,44 @@ func (w *world) send(m msg) (label string, err error) {
 		body = refctl.SetupM1(byte(5 + m.Arg%200))
 	case "start-with-flags":
 		body = refctl.EncodeTLV8([]refctl.Item{{refctl.TagState, []byte{1}}, {refctl.TagMethod, []byte{0}}, {0x13, []byte{0x10, 0, 0, 0}}})
+	case "db-delete-controller":
+		// the owner removes the pairing (legitimately); nothing an attacker sends afterwards may bring it back
+		w.l.DB.DeleteEntity(dbEntity(w.ctrl.ID))
+		w.l.DB.DeleteEntity(dbEntity(w.ctrl2.ID))
+		cs.lastKind = m.Kind
+		cs.honest = false
+		return m.Kind, nil
+	case "verify-replayed":
+		// replayed on ANOTHER connection than the one it was recorded on (on the same connection the accessory
+		// keeps its SRP public key for the connection's lifetime, so the recorded proof is still the right one there;
+		// without the session key that leads nowhere and is not judged here)
+		body = refctl.SetupM3([]byte{1}, bytes.Repeat([]byte{2}, 64))
+		for i := range w.recM3 {
+			j := (i + m.Arg) % len(w.recM3)
+			if w.recM3On[j] != m.Conn {
+				body = w.recM3[j]
+				break
+			}
+		}
+	case "verify-A-zero-public-proof", "verify-A-N-public-proof", "verify-A-empty-public-proof":
+		// the strongest guess without the code: the shared secret is empty / the session key is H(nothing);
+		// the proof is then computable from public values
+		salt, B := []byte("0123456789abcdef"), []byte{2}
+		if cs.m2 != nil {
+			salt, B = cs.m2.Salt, cs.m2.B
+		}
+		A := []byte{0}
+		switch m.Kind {
+		case "verify-A-N-public-proof":
+			A = refctl.SRPN.Bytes()
+		case "verify-A-empty-public-proof":
+			A = []byte{}
+		}
+		K := []byte{}
+		if m.Arg%2 == 1 {
+			K = h512([]byte{})
+		}
+		body = refctl.SetupM3(A, refctl.SRPProof(salt, A, B, K))
 	case "verify-right", "verify-wrong-code", "verify-random-proof", "verify-A-zero", "verify-A-N", "verify-A-2N", "verify-A-empty", "verify-A-absent", "verify-no-proof":
 		salt, B := []byte("0123456789abcdef"), []byte{2}
 		if cs.m2 != nil {
@@ -154,6 +196,13 @@ func (w *world) send(m msg) (label string, err error) {
 			body = m5(used, k, nil, k)
 			m.Kind = "exchange-random-key"
 		}
+	case "exchange-empty-secret":
+		// keys derived the regular way, but from an empty secret (or from H of nothing)
+		k := []byte{}
+		if m.Arg%2 == 1 {
+			k = h512([]byte{})
+		}
+		body = m5(w.ctrl, k, nil, k)
 	case "exchange-zero-key":
 		body = m5(w.ctrl, nil, make([]byte, 32), []byte{})
 	case "exchange-guessable":
@@ -247,6 +296,8 @@ func (w *world) send(m msg) (label string, err error) {
 			}
 		}
 		if ok {
+			w.recM3 = append(w.recM3, body)
+			w.recM3On = append(w.recM3On, m.Conn)
 			cs.proved = true
 			cs.phase = 2
 			cs.honest = wasHonest && cs.lastKind == "start"
@@ -264,6 +315,12 @@ func (w *world) send(m msg) (label string, err error) {
 	}
 	cs.lastKind = m.Kind
 
+	// a verify message built without the setup code must never be answered with a proof
+	if (m.Kind == "verify-replayed" || strings.HasSuffix(m.Kind, "-public-proof")) && !panicked && resp != nil && resp.Status == 200 {
+		if m4, perr := refctl.ParseSetupM4(resp.Body); perr == nil && m4.State == 4 && !m4.HasError && len(m4.Proof) > 0 {
+			return label, fmt.Errorf("message %v, built without knowledge of the setup code, was answered with a server proof (M4 without error)", m)
+		}
+	}
 	// ---- database oracle ----
 	after := w.l.EntityFiles()
 	if !expectStore {
@@ -492,6 +549,9 @@ func TestC02Regress(t *testing.T) {
 		{"wrong code then zero key", []msg{{0, "start", 0}, {0, "verify-wrong-code", 0}, {0, "exchange-zero-key", 0}}},
 		{"key exchange without any verify", []msg{{0, "start", 0}, {0, "exchange-zero-key", 0}}},
 		{"a second key exchange (other identity) after the pairing completed", []msg{{0, "start", 0}, {0, "verify-right", 0}, {0, "exchange-genuine", 0}, {0, "exchange-second-identity", 0}}},
+		{"whole genuine exchange replayed on another connection after the owner removed the pairing", []msg{{0, "start", 0}, {0, "verify-right", 0}, {0, "exchange-genuine", 0}, {0, "db-delete-controller", 0}, {1, "start", 0}, {1, "verify-replayed", 0}, {1, "exchange-replayed", 0}}},
+		{"A=0 with a proof over public values, key exchange under keys derived from the empty secret", []msg{{0, "start", 0}, {0, "verify-A-zero-public-proof", 0}, {0, "exchange-empty-secret", 0}}},
+		{"empty A with a proof over public values (K = H of nothing)", []msg{{0, "start", 0}, {0, "verify-A-empty-public-proof", 1}, {0, "exchange-empty-secret", 1}}},
 		{"genuine M5 of connection 0 replayed on connection 1 after its own failed verify", []msg{{0, "start", 0}, {0, "verify-right", 0}, {0, "exchange-genuine", 0}, {1, "start", 0}, {1, "verify-A-zero", 0}, {1, "exchange-replayed", 0}}},
 	}
 	for i, c := range cases {
@@ -512,3 +572,5 @@ func TestC02Regress(t *testing.T) {
 		}
 	}
 }
+
+func dbEntity(name string) db.Entity { return db.NewEntity(name, nil, nil) }
